@@ -265,6 +265,8 @@ def run_model(ctx, case):
     m["table"]["shape"] = list(sa)
     for c in m["table"]["cols"].values():
         c["data"] = list(reversed(c["data"]))
+        if c.get("filemask"):
+            c["filemask"] = [len(c["data"]) - 1 - j for j in c["filemask"]]      # the file's own missing cells move along
     ctx.count("same_path_rearrangements")
     try:
         prog = models.load(m, dirs[0])
